@@ -169,7 +169,19 @@ func runC06(c *harness.Ctx) {
 			refSide.start(c, hs.End)
 		})
 	}
-	if t.Draw("longstream", 25) == 24 {
+	ls := t.Draw("longstream", 25)
+	if ls == 23 && t.Draw("carry", 6) == 5 {
+		// more than 65 536 frames each way: the frame counter (an 8-byte
+		// big-endian integer that starts at 1) carries out of its two low
+		// bytes.  One-byte application writes keep the volume small.
+		realSide.plan = []writePlan{{Size: 1, Count: 66100}}
+		refSide.plan = []writePlan{{Size: 1, Count: 66100}}
+		link.AB.Policy, link.BA.Policy = 0, 0
+		link.AB.MaxRead, link.BA.MaxRead = 0, 0
+		c.S.MaxSteps = 40000000
+		c.Feature("frame-counter-past-65536-each-way")
+	}
+	if ls == 24 {
 		// several hundred frames each way: the frame counter and the length-mask
 		// generator run past 255 (and, from the real side in iat-mode 2, far beyond)
 		long := func() []writePlan {
